@@ -345,6 +345,87 @@ func (e *enum) rec(s seq, h *hash.Hash, dirty bool, hc, hp *hash.Hash, firstBad 
 	}
 }
 
+// refusedMarkers: New and Fork cannot report an error; a refused value leaves a marker that names its
+// domain.  Every sequence of length <= 2 with at least one refused item is hashed through Fork (and
+// through hash.New where all items are writers) and the digests are grouped: two sequences that
+// differ in an accepted item, in the TYPE of a refused item or in the DOMAIN TAG of a refused
+// BytesWithDomain must not share a digest (internal/ot separates its PRG, gadget and chi streams by
+// forking one context with exactly such tagged, dataless values).  What distinguishes two refused
+// values of one type beyond that is not in the marker by design and is not demanded.
+func refusedMarkers() {
+	refID := func(x int) string {
+		if !bad[x] {
+			return items[x].Type + "=" + items[x].ID
+		}
+		id := "refused:" + items[x].Type
+		switch v := vals[x].(type) {
+		case hash.BytesWithDomain:
+			id += ":" + v.TheDomain
+		case *hash.BytesWithDomain:
+			if v != nil {
+				id += ":" + v.TheDomain
+			}
+		}
+		return id
+	}
+	ids := func(s seq) string {
+		var l []string
+		for _, x := range s {
+			l = append(l, refID(x))
+		}
+		return strings.Join(l, "|")
+	}
+	var seqs []seq
+	for i := range items {
+		if bad[i] {
+			seqs = append(seqs, seq{i})
+		}
+		for j := range items {
+			if bad[i] || bad[j] {
+				seqs = append(seqs, seq{i, j})
+			}
+		}
+	}
+	for _, mode := range []string{"Fork", "hash.New"} {
+		table := map[string]seq{}
+		n := 0
+		for _, s := range seqs {
+			args := make([]interface{}, len(s))
+			ws := make([]hash.WriterToWithDomain, 0, len(s))
+			for i, x := range s {
+				args[i] = vals[x]
+				if w, ok := vals[x].(hash.WriterToWithDomain); ok {
+					ws = append(ws, w)
+				}
+			}
+			var got string
+			if mode == "Fork" {
+				if p, _, _ := vkit.Try(func() { got = sum(hash.New().Fork(args...)) }); p {
+					continue // reported by otherEntryPoints
+				}
+			} else {
+				if len(ws) != len(s) {
+					continue
+				}
+				if p, _, _ := vkit.Try(func() { got = sum(hash.New(ws...)) }); p {
+					continue
+				}
+			}
+			n++
+			res.Case("refused-marker|" + mode + "|" + strings.Join(s.names(), "|"))
+			if prev, ok := table[got]; ok {
+				if ids(prev) != ids(s) {
+					res.Violate("refused-items-collide|"+mode, fmt.Sprintf("%s(%v) and %s(%v) have the same digest although they differ (%s  vs  %s): the marker left by a refused value does not tell them apart", mode, prev, mode, s, ids(prev), ids(s)),
+						replay{Kind: "drop", Mode: mode, A: prev.names(), B: s.names()})
+				}
+			} else {
+				table[got] = append(seq{}, s...)
+			}
+		}
+		res.Extra["refused_marker_sequences_"+mode] = int64(n)
+	}
+}
+
 // otherEntryPoints: the same sequence through hash.New(initialData...) and through Fork(data...).
 // Neither can report an error, so for a sequence with a refused item the digest is compared
 // with the digest of the sequence without it: equal means the item vanished silently.
@@ -407,6 +488,9 @@ func runSequences(maxLen int) {
 		return
 	}
 	e.rec(seq{}, hash.New(), false, nil, nil, -1)
+	if vkit.ShardI() == 0 {
+		refusedMarkers()
+	}
 	// distinct identities among accepted items -> number of distinct identity lists
 	distinct := map[string]bool{}
 	for i, it := range items {
